@@ -52,8 +52,12 @@ class Mat:
             else:
                 text, lines_of = render.render_c(f["items"], seed=rnd.random(), uid="v" + "".join(c for c in fid if c.isalnum()),
                                                  plain=plain)
-            with open(path, "w") as fh:
-                fh.write(text)
+            if f.get("copyof") and random.Random(f"{seed}-hardlink").random() < 0.5:
+                # the copy is a second directory entry of the same inode (cp -l): still an ordinary file
+                os.link(self.paths[f["copyof"]], path)
+            else:
+                with open(path, "w") as fh:
+                    fh.write(text)
             self.paths[fid] = os.path.realpath(path)
             self.lines_of[fid] = lines_of
             self.text[fid] = text
